@@ -193,6 +193,8 @@ class Ctx:
         repo = os.path.realpath(self.repo) + os.sep
         verif = os.path.realpath(os.path.dirname(os.path.dirname(__file__))) + os.sep
         for fr in reversed(tb):
+            if not os.path.isabs(fr.filename) or not os.path.exists(fr.filename):
+                continue  # frames of compiled extensions (e.g. 'src/lxml/etree.pyx')
             fn = os.path.realpath(fr.filename)
             if fn.startswith(repo):
                 mod = os.path.splitext(fn[len(repo):])[0].replace(os.sep, '.')
